@@ -43,7 +43,11 @@ impl Read for FragReader {
 		if Some(self.calls) == self.fail_at {
 			return Err(io::Error::new(io::ErrorKind::Other, "injected fault"));
 		}
-		let mut n = buf.len().min(self.data.len() - self.pos.min(self.data.len()));
+		if self.pos >= self.data.len() {
+			// at or past the end (a seek may go past it, as with a file): end of stream
+			return Ok(0);
+		}
+		let mut n = buf.len().min(self.data.len() - self.pos);
 		if !self.chunks.is_empty() && !buf.is_empty() {
 			let c = self.chunks[self.k % self.chunks.len()];
 			self.k += 1;
@@ -415,14 +419,14 @@ fn m_incr(f: &[String]) -> String {
 	if st.bytes_read() < raw_len {
 		let mut buf = vec![0; raw_len - st.bytes_read()];
 		if let Err(e) = r.read_exact(&mut buf) {
-			writeln!(out, "tail=ERR io {}", e).unwrap();
+			{ let _ = e; writeln!(out, "tail=ERR").unwrap(); }
 			return out;
 		}
 	}
 	let mut b = [0u8; 1];
 	match r.read_exact(&mut b) {
 		Err(_) => {
-			writeln!(out, "tail=ERR io").unwrap();
+			writeln!(out, "tail=ERR").unwrap();
 			return out;
 		}
 		Ok(()) => {}
